@@ -1604,6 +1604,10 @@ def source_match(facts, rule, site, ignore=()):
     kind = OP_KIND_SRC.get(rule.get("operation"))
     name = rule.get("name") or ""
     kinds = [kind] if "operation" not in ignore else ["call", "method", "param", "field"]
+    if kinds == ["call"]:
+        # a call_stmt rule with a dotted name also designates the method call spelled that way: the shipped rules
+        # say so (sink.yaml: operation call_stmt, name pickle.load / web.FileResponse)
+        kinds = ["call", "method"]
     for kd in kinds:
         if kd == "call":
             for c in facts.calls.get(site, []):
@@ -1633,6 +1637,8 @@ def sink_match(facts, rule, site, ignore=()):
     name = rule.get("name") or ""
     targets = rule_targets(rule)
     kinds = [kind] if "operation" not in ignore else ["call", "method", "fieldw", "recordw"]
+    if kinds == ["call"]:
+        kinds = ["call", "method"]        # see source_match
     for kd in kinds:
         if kd in ("call", "method"):
             for c in facts.calls.get(site, []):
